@@ -77,7 +77,8 @@ Fixpoint fset (k:str) (v:bool) (fl:flags) : flags :=                            
   | (k', v') :: r => if eqs k' k then (k', v) :: r else (k', v') :: fset k v r
   end.
 
-(* for word in master.words: flags[unstarred.lower()] = False *)
+(* for word in master.words: flags[unstarred.lower()] = False ; alternatives.append(unstarred)
+   (the list "alternatives" is map (fun w => unstar (wv w)) master, built in choice_fetch_x) *)
 Fixpoint init_flags (master:list word) (fl:flags) : flags :=
   match master with
   | [] => fl
@@ -100,8 +101,20 @@ Fixpoint all_nonblank (vals:list str) : bool :=
   | v :: r => if (length (strip v) =? 0)%nat then false else all_nonblank r
   end.
 
-Definition process_plus (source:list word) : bool :=
-  let '(have_quote_or_star, have_plus) := detect source false in
+(* [word.value for word in source_words] == alternatives : equality of two lists of str *)
+Fixpoint names_eqb (a b:list str) : bool :=
+  match a, b with
+  | [], [] => true
+  | x :: a', y :: b' => eqs x y && names_eqb a' b'
+  | _, _ => false
+  end.
+
+(* alts: the list "alternatives" (the star-stripped values of the master words, original case).
+   The complete list without a star (what format writes when nothing is selected) is not the
+   a+b form, also if names contain "+": have_plus is reset to False. *)
+Definition process_plus (alts:list str) (source:list word) : bool :=
+  let '(have_quote_or_star, have_plus0) := detect source false in
+  let have_plus := if names_eqb (map wv source) alts then false else have_plus0 in
   if negb have_quote_or_star && have_plus then
     all_nonblank (tl (split_on plus (join_empty (map wv source))))
   else false.
@@ -172,9 +185,10 @@ Definition choice_fetch_x (optional:aval) (master source:list word) (ignore_erro
   else if is_plain_auto source then FOk [uw (s_ "Auto")]
   else
     let fl0 := init_flags master [] in
+    let alternatives := map (fun w => unstar (wv w)) master in
     let sel :=
       if mandatory optional || negb (is_plain_none source) then
-        if process_plus source then plus_loop source fl0
+        if process_plus alternatives source then plus_loop source fl0
         else normal_loop (length source =? 1)%nat ignore_errors source fl0
       else LOk fl0 in
     match sel with
